@@ -40,7 +40,7 @@ ALPH = {
     "rO": [I_AX, L_PLAIN, L_LANG, L_DT1, L_DT2, L_XSD, B1, I_UNI, L_EMPTY],
     "rG": [DEF, I_AX, B1],
     "rG4": [DEF, I_AX, B1, ("bnode", "http://a/x")],   # a blank node whose label equals an IRI used as graph name
-    "rO5": [I_AX, L_LANG, L_DT1, L_XSD, B1, L_EMPTY],
+    "rO5": [I_AX, L_LANG, L_DT1, L_XSD, B1, L_EMPTY, L_PLAIN],   # L_PLAIN / L_LANG / L_XSD share the lexical form
 }
 
 SPINES = {
